@@ -1,5 +1,5 @@
 /- Driver ops for MultiCVRP.  Ops: multi_cvrp.step, multi_cvrp.state, multi_cvrp.judge,
-multi_cvrp.instance, multi_cvrp.bounds
+multi_cvrp.instance, multi_cvrp.bounds, multi_cvrp.spec
 
 State JSON (= `envs/multi_cvrp.py: ser_state`): coordinates, demands, win_start, win_end, coef_early,
 coef_late, local_times, positions, capacities, distances, time_penalties, order, step_count,
@@ -15,6 +15,8 @@ import JumanjiModel.Env.MultiCVRP.Model
 import JumanjiModel.Env.MultiCVRP.Bounds
 import JumanjiModel.Env.MultiCVRP.Generator
 import JumanjiModel.Prim.Float
+import JumanjiModel.Env.MultiCVRP.Spec
+import JumanjiModel.Bridge.Spec
 open Lean Jb
 
 namespace Jb.MultiCVRP
@@ -98,6 +100,14 @@ def opStep : Op := fun j => do
               ("legal", jBools ((List.range a.length).map (fun v => decide (legal s v (a.getD v 0))))),
               ("dests", jNats (dests s a))])
 
+def getLim (cfg : Json) : Except String Lim := do
+  pure { mapMax := ← fRat cfg "map_max", demandMax := ← fInt cfg "demand_max",
+         maxStart := ← fRat cfg "max_start_window", windowLen := ← fRat cfg "window_length",
+         coefEarlyMax := ← fRat cfg "coef_early_max", coefLateMax := ← fRat cfg "coef_late_max",
+         dmax := ← fRat cfg "dist_max" }
+
+def jNValue (v : Sp.NValue) : Json := jList (fun (e : String × Sp.Arr) => jObj [("key", jStr e.1), ("value", SpecOps.jArr e.2)]) v
+
 /-- {"cfg", "state"} → mask (L1, recomputed from demands and capacities), legal (L2), obs (L2 observe),
 feasible (`Feasible`, and on float states: accumulators ≈ recorded routes), solution, objective -/
 def opState : Op := fun j => do
@@ -105,7 +115,20 @@ def opState : Op := fun j => do
   let (s, D, d0) ← getFull j
   let tol : Rat := 1 / 10000
   let accOK := !(decide (recorded c s)) || accumulatorsMatch tol D s
-  pure (jObj [("mask", jBools (createActionMask s.demands s.capacities).flatten),
+  -- wave 4 (C01 membership), when the configuration carries `max_local_time`: the timestep `reset` builds on this state
+  -- (`restart(_state_to_observation(state))`), the observation as spec-level arrays (`toNValue`), its membership in the
+  -- model's `obsSpec`, and the invariant `SpecInv` (with `dmax` = cfg.dist_max) behind `multicvrp_step_obs_valid`
+  let cj ← field j "cfg"
+  let w4 : List (String × Json) ← match ← fOpt cj "max_local_time" getRat with
+    | some maxLocal => do
+      let L ← getLim cj
+      let nV ← fNat cj "num_vehicles"
+      pure [("reset_ts", jTimeStep jObs (Jm.restart (stateToObs s))),
+            ("nvalue", jNValue (toNValue (stateToObs s))),
+            ("obs_in_spec", jBool ((obsSpec c nV L maxLocal).valid (toNValue (stateToObs s)))),
+            ("spec_inv", jBool (decide (SpecInv c nV L s)))]
+    | none => pure []
+  pure (jObj ([("mask", jBools (createActionMask s.demands s.capacities).flatten),
               ("cached_mask", jBools s.mask.flatten),
               ("legal", jBools ((List.range s.capacities.length).map (fun v =>
                   (List.range s.demands.length).map (fun a => decide (legal s v a)))).flatten),
@@ -116,7 +139,7 @@ def opState : Op := fun j => do
               ("accumulators_match", jBool accOK),
               ("solution", jBool (decide (IsSolution c d0 s) && accOK)),
               ("objective", jRat (objective D s)),
-              ("accumulated", jRat (accumulated s))])
+              ("accumulated", jRat (accumulated s))] ++ w4))
 
 /-- Lean-defined predicates on an implementation transition {cfg, state, action, next, ts}:
 illegal_ok (null when every vehicle's choice is honoured): every vehicle whose choice is not
@@ -187,12 +210,6 @@ def opInstance : Op := fun j => do
               ("feasible", jBool (decide (Feasible c s.demands s))),
               ("dist_matches_coordinates", jBool (distMatches (1 / 100000) s.coords D))]))
 
-def getLim (cfg : Json) : Except String Lim := do
-  pure { mapMax := ← fRat cfg "map_max", demandMax := ← fInt cfg "demand_max",
-         maxStart := ← fRat cfg "max_start_window", windowLen := ← fRat cfg "window_length",
-         coefEarlyMax := ← fRat cfg "coef_early_max", coefLateMax := ← fRat cfg "coef_late_max",
-         dmax := ← fRat cfg "dist_max" }
-
 def jBounds (t : Jm.OB.Table) : Json :=
   jObj (t.map fun e => (e.1, jObj [("lo", match e.2.1 with | some r => jRat r | none => Json.null),
                                    ("hi", match e.2.2 with | some r => jRat r | none => Json.null)]))
@@ -204,7 +221,20 @@ def opBounds : Op := fun j => do
   let L ← getLim (← field j "cfg")
   pure (jBounds (obsBounds c L))
 
+/-- {cfg (with max_local_time)} → the model's `obsSpec`, `actionSpec`, reward and discount spec in the `speclib.leaf_json`
+layout, `generate_value()`, and `decl_ok` = the hypothesis `DeclOK` of the membership theorems on this configuration -/
+def opSpec : Op := fun j => do
+  let c ← getCfg j
+  let cj ← field j "cfg"
+  let L ← getLim cj
+  let nV ← fNat cj "num_vehicles"
+  let maxLocal ← fRat cj "max_local_time"
+  pure (jObj [("observation_spec", SpecOps.jNested (obsSpec c nV L maxLocal)), ("action_spec", SpecOps.jLeaf (actionSpec c nV)),
+              ("reward_spec", SpecOps.jLeaf PzS.rewardSpec), ("discount_spec", SpecOps.jLeaf PzS.discountSpec),
+              ("action_spec_wf", jBool (actionSpec c nV).WF), ("generate_value", SpecOps.jArr (actionSpec c nV).generate),
+              ("decl_ok", jBool (decide (DeclOK c L maxLocal)))])
+
 def ops : List (String × Op) :=
   [("multi_cvrp.step", opStep), ("multi_cvrp.state", opState), ("multi_cvrp.judge", opJudge),
-   ("multi_cvrp.instance", opInstance), ("multi_cvrp.bounds", opBounds)]
+   ("multi_cvrp.instance", opInstance), ("multi_cvrp.bounds", opBounds), ("multi_cvrp.spec", opSpec)]
 end Jb.MultiCVRP
